@@ -38,7 +38,6 @@ func fromU16(v uint16) (l, h uint8) {
 // im0data is pseudo Memory module be used when IM0 interrupt occurred.
 type im0data struct {
 	start uint16
-	end   uint16
 	data  []uint8
 
 	base Memory
@@ -47,14 +46,19 @@ type im0data struct {
 func newIm0data(pc uint16, d []uint8, base Memory) *im0data {
 	return &im0data{
 		start: pc,
-		end:   pc + uint16(len(d)-1),
 		data:  d,
 		base:  base,
 	}
 }
 
+// contains reports whether addr is in the overlaid range, which may wrap
+// around 0xFFFF.
+func (im0 *im0data) contains(addr uint16) bool {
+	return int(addr-im0.start) < len(im0.data)
+}
+
 func (im0 *im0data) Get(addr uint16) uint8 {
-	if addr < im0.start || addr > im0.end {
+	if !im0.contains(addr) {
 		// delegate to base Memory for out of range.
 		return im0.base.Get(addr)
 	}
@@ -62,7 +66,7 @@ func (im0 *im0data) Get(addr uint16) uint8 {
 }
 
 func (im0 *im0data) Set(addr uint16, value uint8) {
-	if addr >= im0.start && addr <= im0.end {
+	if im0.contains(addr) {
 		// invalid opepration, nothing to do.
 		return
 	}
